@@ -451,6 +451,8 @@ def generate(rng, seed, tier='quick'):
         if verb == 'register':
             while True:
                 pfx = [rng.choice(['a', 'b', 'c', 'd']) for _ in range(rng.randint(1, 3))]
+                if rng.random() < 0.08:
+                    pfx = []            # the root prefix "/"
                 if tuple(pfx) not in used:
                     break
             used.add(tuple(pfx))
